@@ -151,7 +151,7 @@ Proof. unfold write_at. cases_if'; cbn [fst snd]; auto; discriminate. Qed.
 
 Lemma b_errors_change_nothing_lemma s o : snd (b_step s o) = BErr -> fst (b_step s o) = s.
 Proof.
-  destruct o as [n|a|h|h n|w k be h off|w sg be h off v|w be h off bits|sh so dh doff len|h off len v]; cbn [b_step].
+  destruct o as [n|a|h|h n|w k be h off|w sg be h off v|w be h off bits|sh so dh doff len|h off len v|h|h1 h2|bs|h off len|h off bs|h st sp nd|h off len|h i j]; cbn [b_step].
   - cases_if'; cbn [fst snd]; auto. destruct (store_resource s (repeat 0 (Z.to_nat n))). cbn. discriminate.
   - destruct a as [z| |]; cases_if'; cbn [fst snd]; auto; discriminate.
   - cases_if'; cbn [fst snd]; auto.
@@ -161,6 +161,15 @@ Proof.
   - cases_if'; cbn [fst snd]; auto; apply write_at_err.
   - cases_if'; cbn [fst snd]; auto; discriminate.
   - cases_if'; cbn [fst snd]; auto; discriminate.
+  - (* clone *) cases_if'; cbn [fst snd]; auto. destruct (store_resource s b). cbn. discriminate.
+  - (* equals *) cases_if'; cbn [fst snd]; auto.
+  - (* from_string *) cases_if'; cbn [fst snd]; auto. destruct (store_resource s bs). cbn. discriminate.
+  - (* decode *) cases_if'; cbn [fst snd]; auto.
+  - (* write_string *) pose proof (write_at_err s h off bs) as Hw.
+    destruct (write_at s h off bs) as [s' r]. destruct r; cbn [fst snd] in *; auto; discriminate.
+  - (* find *) cases_if'; cbn [fst snd]; auto.
+  - (* reverse *) cases_if'; cbn [fst snd]; auto; discriminate.
+  - (* swap *) cases_if'; cbn [fst snd]; auto; discriminate.
 Qed.
 
 (* ------------------------------------------------------------------ bounds *)
@@ -363,7 +372,7 @@ Lemma b_isolation_lemma s o k d :
   get_buf s k = Some d -> bop_writes o <> Some (Z.of_N k) -> get_buf (fst (b_step s o)) k = Some d.
 Proof.
   intros Hg Hw. rewrite <- Hg.
-  destruct o as [n|a|h|h n|w kd be h off|w sg be h off v|w be h off bits|sh so dh doff len|h off len v];
+  destruct o as [n|a|h|h n|w kd be h off|w sg be h off v|w be h off bits|sh so dh doff len|h off len v|h|h1 h2|bs|h off len|h off bs|h st sp nd|h off len|h i j];
     cbn [b_step bop_writes] in *.
   - destruct (n <=? 0)%Z; [reflexivity|]. destruct (MAX_ALLOC <? Z.to_N n); [reflexivity|].
     destruct (store_resource s (repeat 0 (Z.to_nat n))) as [s' h0] eqn:E. cbn [fst].
@@ -391,6 +400,27 @@ Proof.
     destruct (len =? 0)%Z; [reflexivity|]. destruct (get_buf s (Z.to_N h)); [|reflexivity].
     destruct (in_bounds _ _ _); [|reflexivity].
     cbn [fst]. apply get_buf_set_ne. intro Hk. apply Hw. f_equal. lia.
+  - (* clone *) destruct (h <? 0)%Z; [reflexivity|]. destruct (get_buf s (Z.to_N h)) as [d0|]; [|reflexivity].
+    destruct (store_resource s d0) as [s' h0] eqn:E. cbn [fst].
+    destruct (store_resource_spec _ _ _ _ E) as [Hn [_ Ho]]. apply Ho. intros ->. congruence.
+  - (* equals *) cases_if'; reflexivity.
+  - (* from_string *) destruct (MAX_ALLOC <? N.of_nat (length bs)); [reflexivity|].
+    destruct (store_resource s bs) as [s' h0] eqn:E. cbn [fst].
+    destruct (store_resource_spec _ _ _ _ E) as [Hn [_ Ho]]. apply Ho. intros ->. congruence.
+  - (* decode *) cases_if'; reflexivity.
+  - (* write_string *) pose proof (write_at_other s h off bs k) as Ho.
+    destruct (write_at s h off bs) as [s' r]. cbn [fst] in Ho.
+    assert (Hr : get_buf s' k = get_buf s k) by (apply Ho; congruence).
+    destruct r; cbn [fst]; exact Hr.
+  - (* find *) cases_if'; reflexivity.
+  - (* reverse *) destruct (h <? 0)%Z eqn:Ez; [reflexivity|]. destruct (off <? 0)%Z; [reflexivity|].
+    destruct (len <? 0)%Z; [reflexivity|]. destruct (len =? 0)%Z; [reflexivity|].
+    destruct (get_buf s (Z.to_N h)); [|reflexivity]. destruct (in_bounds _ _ _); [|reflexivity].
+    cbn [fst]. apply get_buf_set_ne. intro Hk. apply Hw. f_equal. lia.
+  - (* swap *) destruct (h <? 0)%Z eqn:Ez; [reflexivity|]. destruct (i <? 0)%Z; [reflexivity|]. destruct (j <? 0)%Z; [reflexivity|].
+    destruct (get_buf s (Z.to_N h)) as [d0|]; [|reflexivity].
+    destruct (nth_N d0 (Z.to_N i)); [|reflexivity]. destruct (nth_N d0 (Z.to_N j)); [|reflexivity].
+    cbn [fst]. apply get_buf_set_ne. intro Hk. apply Hw. f_equal. lia.
 Qed.
 
 (* allocation hands out a handle that was not live, with a zeroed buffer of the requested size *)
@@ -414,7 +444,14 @@ Lemma b_dead_handle_rejected_lemma s h :
   /\ (forall w be off bits, b_step s (BWriteF w be h off bits) = (s, BErr))
   /\ (forall off len v, (len <> 0)%Z -> b_step s (BFill h off len v) = (s, BErr))
   /\ (forall so dh doff len, (len <> 0)%Z -> b_step s (BCopy h so dh doff len) = (s, BErr))
-  /\ (forall sh so doff len, (len <> 0)%Z -> b_step s (BCopy sh so h doff len) = (s, BErr)).
+  /\ (forall sh so doff len, (len <> 0)%Z -> b_step s (BCopy sh so h doff len) = (s, BErr))
+  /\ b_step s (BClone h) = (s, BErr)
+  /\ (forall g, b_step s (BEquals h g) = (s, BErr) /\ b_step s (BEquals g h) = (s, BErr))
+  /\ (forall off len, b_step s (BDecode h off len) = (s, BErr))
+  /\ (forall off bs, b_step s (BWriteString h off bs) = (s, BErr))
+  /\ (forall st sp nd, b_step s (BFind h st sp nd) = (s, BErr))
+  /\ (forall off len, (len <> 0)%Z -> b_step s (BReverse h off len) = (s, BErr))
+  /\ (forall i j, b_step s (BSwap h i j) = (s, BErr)).
 Proof.
   intro H.
   assert (Hw : forall off bs, write_at s h off bs = (s, BErr)).
@@ -431,6 +468,14 @@ Proof.
   - destruct (h <? 0)%Z eqn:E; [reflexivity|]. rewrite (Hg eq_refl). replace (len =? 0)%Z with false by lia. cases_if'; reflexivity.
   - destruct (h <? 0)%Z eqn:E; [reflexivity|]. rewrite (Hg eq_refl). replace (len =? 0)%Z with false by lia. cases_if'; reflexivity.
   - replace (len =? 0)%Z with false by lia. destruct (h <? 0)%Z eqn:E; [cases_if'; reflexivity|]. rewrite (Hg eq_refl). cases_if'; reflexivity.
+  - destruct (h <? 0)%Z eqn:E; [reflexivity|]. rewrite (Hg eq_refl). reflexivity.
+  - destruct (h <? 0)%Z eqn:E; [reflexivity|]. rewrite (Hg eq_refl). cases_if'; reflexivity.
+  - destruct (h <? 0)%Z eqn:E; [cases_if'; reflexivity|]. rewrite (Hg eq_refl). cases_if'; reflexivity.
+  - destruct (h <? 0)%Z eqn:E; [reflexivity|]. rewrite (Hg eq_refl). cases_if'; reflexivity.
+  - rewrite Hw. reflexivity.
+  - destruct (h <? 0)%Z eqn:E; [reflexivity|]. rewrite (Hg eq_refl). cases_if'; reflexivity.
+  - destruct (h <? 0)%Z eqn:E; [reflexivity|]. rewrite (Hg eq_refl). replace (len =? 0)%Z with false by lia. cases_if'; reflexivity.
+  - destruct (h <? 0)%Z eqn:E; [reflexivity|]. rewrite (Hg eq_refl). cases_if'; reflexivity.
 Qed.
 
 Lemma b_free_makes_stale_lemma s h s' :
@@ -509,4 +554,180 @@ Proof.
   assert (Hk : reader_known 4 2 be = true) by (destruct be; vm_compute; reflexivity).
   rewrite Hk. cbn [negb]. change (4 =? 8) with false. change (2 =? 2) with true. cbv iota.
   rewrite E1, E2, Hg, Hbd, Hs, dec_enc. change (256 ^ N.of_nat 4) with 4294967296. rewrite N.mod_small by exact Hlt. reflexivity.
+Qed.
+
+(* ------------------------------------------------------------------ refinement to the map of byte arrays *)
+Definition BSim (s : bstate) (m : smap) : Prop := forall h, get_buf s h = sm_get m h.
+
+Lemma bsim_empty : BSim bs_empty [].
+Proof.
+  intro h. unfold get_buf. replace (nth_N bs_empty h) with (@None (option buf)); [reflexivity|].
+  symmetry. apply nth_N_None. cbn. lia.
+Qed.
+
+Lemma bsim_set s m h d : BSim s m -> h < N.of_nat (length s) -> BSim (set_buf s h d) (sm_set m h d).
+Proof.
+  intros HS Hlt k. rewrite sm_get_set. destruct (h =? k) eqn:E.
+  - assert (h = k) by lia. subst k. apply get_buf_set_eq. exact Hlt.
+  - rewrite get_buf_set_ne by lia. apply HS.
+Qed.
+
+Lemma bsim_remove s m h : BSim s m -> BSim (upd_N s h None) (sm_remove m h).
+Proof.
+  intros HS k. destruct (N.eq_dec h k) as [->|Hne].
+  - rewrite sm_get_remove_eq. unfold get_buf. rewrite upd_N_same_len_nth, N.eqb_refl. cbn [andb].
+    destruct (k <? N.of_nat (length s)) eqn:E; [reflexivity|].
+    replace (nth_N s k) with (@None (option buf)); [reflexivity|]. symmetry. apply nth_N_None. lia.
+  - rewrite sm_get_remove_ne by exact Hne. unfold get_buf. rewrite nth_N_upd_ne by exact Hne. apply HS.
+Qed.
+
+Lemma bsim_new s m d s' k :
+  BSim s m -> store_resource s d = (s', k) ->
+  sp_new m d (BOkInt (Z.of_N k)) = ((k, d) :: m, BOkInt (Z.of_N k)) /\ BSim s' ((k, d) :: m).
+Proof.
+  intros HS E. destruct (store_resource_spec _ _ _ _ E) as [Hn [Hs Ho]]. split.
+  - unfold sp_new. replace (Z.of_N k <? 0)%Z with false by lia. rewrite N2Z.id, <- (HS k), Hn. reflexivity.
+  - intro j. cbn [sm_get]. destruct (k =? j) eqn:Ej.
+    + assert (k = j) by lia. subst j. exact Hs.
+    + rewrite Ho by lia. apply HS.
+Qed.
+
+Lemma write_at_refines s m h off bs :
+  BSim s m ->
+  snd (sp_write_at m h off bs) = snd (write_at s h off bs)
+  /\ BSim (fst (write_at s h off bs)) (fst (sp_write_at m h off bs)).
+Proof.
+  intro HS. unfold write_at, sp_write_at. rewrite <- (HS (Z.to_N h)).
+  destruct (h <? 0)%Z; [auto|]. destruct (off <? 0)%Z; [auto|].
+  destruct (get_buf s (Z.to_N h)) as [d|] eqn:Hg; [|auto].
+  destruct (in_bounds _ _ _); [|auto]. cbn [fst snd]. split; [reflexivity|].
+  apply bsim_set; [exact HS|eapply get_buf_lt; exact Hg].
+Qed.
+
+Ltac bsim_done HS :=
+  cbn [fst snd]; first [ split; [reflexivity|exact HS] | idtac ].
+
+Lemma b_refines_lemma s m o :
+  BSim s m ->
+  snd (bspec_step m o (snd (b_step s o))) = snd (b_step s o)
+  /\ BSim (fst (b_step s o)) (fst (bspec_step m o (snd (b_step s o)))).
+Proof.
+  intro HS.
+  destruct o as [n|a|h|h n|w k be h off|w sg be h off v|w be h off bits|sh so dh doff len|h off len v|h|h1 h2|bs|h off len|h off bs|h st sp nd|h off len|h i j];
+    cbn [b_step bspec_step].
+  - (* alloc *)
+    destruct (n <=? 0)%Z; [bsim_done HS|]. destruct (MAX_ALLOC <? Z.to_N n); [bsim_done HS|].
+    destruct (store_resource s (repeat 0 (Z.to_nat n))) as [s' k] eqn:E. cbn [fst snd].
+    destruct (bsim_new s m _ s' k HS E) as [Hsp HS']. rewrite Hsp. cbn [fst snd]. auto.
+  - (* free *)
+    destruct a as [z| |]; [|bsim_done HS ..]. destruct (z <? 0)%Z; [bsim_done HS|].
+    rewrite <- (HS (Z.to_N z)). destruct (get_buf s (Z.to_N z)); [|bsim_done HS].
+    cbn [fst snd]. split; [reflexivity|apply bsim_remove; exact HS].
+  - (* size *)
+    destruct (h <? 0)%Z; [bsim_done HS|]. rewrite <- (HS (Z.to_N h)). destruct (get_buf s (Z.to_N h)); bsim_done HS.
+  - (* resize *)
+    destruct (h <? 0)%Z; [bsim_done HS|]. destruct (n <=? 0)%Z; [bsim_done HS|]. destruct (MAX_ALLOC <? Z.to_N n); [bsim_done HS|].
+    rewrite <- (HS (Z.to_N h)). destruct (get_buf s (Z.to_N h)) as [d|] eqn:Hg; [|bsim_done HS].
+    cbn [fst snd]. split; [reflexivity|]. apply bsim_set; [exact HS|eapply get_buf_lt; exact Hg].
+  - (* read *)
+    destruct (negb (reader_known w k be)); [bsim_done HS|].
+    destruct (h <? 0)%Z; [bsim_done HS|]. destruct (off <? 0)%Z; [bsim_done HS|].
+    rewrite <- (HS (Z.to_N h)). destruct (get_buf s (Z.to_N h)); [|bsim_done HS].
+    destruct (in_bounds _ _ _); bsim_done HS.
+  - (* write *)
+    destruct (writer_range w sg be) as [[lo hi]|]; [|bsim_done HS].
+    destruct (h <? 0)%Z; [bsim_done HS|]. destruct (off <? 0)%Z; [bsim_done HS|].
+    destruct ((v <? lo) || (hi <? v))%Z; [bsim_done HS|]. apply write_at_refines. exact HS.
+  - (* write float *)
+    destruct (negb (fwriter_known w be)); [bsim_done HS|]. destruct (w =? 8); apply write_at_refines; exact HS.
+  - (* copy *)
+    destruct (sh <? 0)%Z; [bsim_done HS|]. destruct (so <? 0)%Z; [bsim_done HS|].
+    destruct (dh <? 0)%Z; [bsim_done HS|]. destruct (doff <? 0)%Z; [bsim_done HS|].
+    destruct (len <? 0)%Z; [bsim_done HS|]. destruct (len =? 0)%Z; [bsim_done HS|].
+    rewrite <- (HS (Z.to_N sh)), <- (HS (Z.to_N dh)).
+    destruct (get_buf s (Z.to_N sh)) as [src|]; [|bsim_done HS]. destruct (negb _); [bsim_done HS|].
+    destruct (get_buf s (Z.to_N dh)) as [dst|] eqn:Hg; [|bsim_done HS]. destruct (negb _); [bsim_done HS|].
+    cbn [fst snd]. split; [reflexivity|]. apply bsim_set; [exact HS|eapply get_buf_lt; exact Hg].
+  - (* fill *)
+    destruct (h <? 0)%Z; [bsim_done HS|]. destruct (off <? 0)%Z; [bsim_done HS|].
+    destruct (len <? 0)%Z; [bsim_done HS|]. destruct ((v <? FILL_MIN) || (FILL_MAX <? v))%Z; [bsim_done HS|].
+    destruct (len =? 0)%Z; [bsim_done HS|].
+    rewrite <- (HS (Z.to_N h)). destruct (get_buf s (Z.to_N h)) as [d|] eqn:Hg; [|bsim_done HS].
+    destruct (in_bounds _ _ _); [|bsim_done HS].
+    cbn [fst snd]. split; [reflexivity|]. apply bsim_set; [exact HS|eapply get_buf_lt; exact Hg].
+  - (* clone *)
+    destruct (h <? 0)%Z; [bsim_done HS|]. rewrite <- (HS (Z.to_N h)).
+    destruct (get_buf s (Z.to_N h)) as [d|]; [|bsim_done HS].
+    destruct (store_resource s d) as [s' k] eqn:E. cbn [fst snd].
+    destruct (bsim_new s m _ s' k HS E) as [Hsp HS']. rewrite Hsp. cbn [fst snd]. auto.
+  - (* equals *)
+    destruct (h1 <? 0)%Z; [bsim_done HS|]. destruct (h2 <? 0)%Z; [bsim_done HS|].
+    rewrite <- (HS (Z.to_N h1)), <- (HS (Z.to_N h2)).
+    destruct (get_buf s (Z.to_N h1)); [destruct (get_buf s (Z.to_N h2))|]; bsim_done HS.
+  - (* from_string *)
+    destruct (MAX_ALLOC <? N.of_nat (length bs)); [bsim_done HS|].
+    destruct (store_resource s bs) as [s' k] eqn:E. cbn [fst snd].
+    destruct (bsim_new s m _ s' k HS E) as [Hsp HS']. rewrite Hsp. cbn [fst snd]. auto.
+  - (* decode *)
+    destruct (h <? 0)%Z; [bsim_done HS|]. destruct (off <? 0)%Z; [bsim_done HS|]. destruct (len <? 0)%Z; [bsim_done HS|].
+    rewrite <- (HS (Z.to_N h)). destruct (get_buf s (Z.to_N h)); [|bsim_done HS].
+    destruct (in_bounds _ _ _); bsim_done HS.
+  - (* write_string *)
+    destruct (write_at_refines s m h off bs HS) as [Hr HS'].
+    destruct (write_at s h off bs) as [s' r]. destruct (sp_write_at m h off bs) as [m' r']. cbn [fst snd] in *. subst r'.
+    destruct r; cbn [fst snd]; auto.
+  - (* find *)
+    destruct (h <? 0)%Z; [bsim_done HS|]. destruct (st <? 0)%Z; [bsim_done HS|].
+    destruct ((nd <? 0) || (255 <? nd))%Z; [bsim_done HS|].
+    rewrite <- (HS (Z.to_N h)). destruct (get_buf s (Z.to_N h)); [|bsim_done HS].
+    destruct (_ <=? Z.to_N st); bsim_done HS.
+  - (* reverse *)
+    destruct (h <? 0)%Z; [bsim_done HS|]. destruct (off <? 0)%Z; [bsim_done HS|].
+    destruct (len <? 0)%Z; [bsim_done HS|]. destruct (len =? 0)%Z; [bsim_done HS|].
+    rewrite <- (HS (Z.to_N h)). destruct (get_buf s (Z.to_N h)) as [d|] eqn:Hg; [|bsim_done HS].
+    destruct (in_bounds _ _ _); [|bsim_done HS].
+    cbn [fst snd]. split; [reflexivity|]. apply bsim_set; [exact HS|eapply get_buf_lt; exact Hg].
+  - (* swap *)
+    destruct (h <? 0)%Z; [bsim_done HS|]. destruct (i <? 0)%Z; [bsim_done HS|]. destruct (j <? 0)%Z; [bsim_done HS|].
+    rewrite <- (HS (Z.to_N h)). destruct (get_buf s (Z.to_N h)) as [d|] eqn:Hg; [|bsim_done HS].
+    unfold byte in *.
+    destruct (nth_N d (Z.to_N i)); [|bsim_done HS]. destruct (nth_N d (Z.to_N j)); [|bsim_done HS].
+    cbn [fst snd]. split; [reflexivity|]. apply bsim_set; [exact HS|eapply get_buf_lt; exact Hg].
+Qed.
+
+Lemma b_run_cons s o r :
+  b_run s (o :: r) = (fst (b_run (fst (b_step s o)) r), snd (b_step s o) :: snd (b_run (fst (b_step s o)) r)).
+Proof. cbn [b_run]. destruct (b_step s o) as [s1 x]. cbn [fst snd]. destruct (b_run s1 r) as [s2 xs]. reflexivity. Qed.
+
+Lemma b_run_exec os : forall s, fst (b_run s os) = b_exec s os.
+Proof. induction os as [|o r IH]; intro s; [reflexivity|]. rewrite b_run_cons. cbn [fst]. rewrite IH. reflexivity. Qed.
+
+Lemma bspec_run_cons m o r x xs :
+  bspec_run m (o :: r) (x :: xs) =
+  (fst (bspec_run (fst (bspec_step m o x)) r xs), snd (bspec_step m o x) :: snd (bspec_run (fst (bspec_step m o x)) r xs)).
+Proof. cbn [bspec_run]. destruct (bspec_step m o x) as [m1 y]. cbn [fst snd]. destruct (bspec_run m1 r xs) as [m2 ys]. reflexivity. Qed.
+
+Lemma b_refines_history_lemma os : forall s m,
+  BSim s m ->
+  snd (bspec_run m os (snd (b_run s os))) = snd (b_run s os)
+  /\ BSim (b_exec s os) (fst (bspec_run m os (snd (b_run s os)))).
+Proof.
+  induction os as [|o r IH]; intros s m HS; [cbn; auto|].
+  destruct (b_refines_lemma s m o HS) as [Hr HS1].
+  rewrite b_run_cons. cbn [fst snd]. rewrite bspec_run_cons. cbn [fst snd].
+  destruct (IH _ _ HS1) as [Hr2 HS2]. cbn [b_exec fold_left]. fold (b_exec (fst (b_step s o)) r).
+  split; [rewrite Hr, Hr2; reflexivity|exact HS2].
+Qed.
+
+(* b_step never answers BBad, hence (by refinement) the specification never objects *)
+Lemma b_step_not_bad s o : snd (b_step s o) <> BBad.
+Proof.
+  destruct o as [n|a|h|h n|w k be h off|w sg be h off v|w be h off bits|sh so dh doff len|h off len v|h|h1 h2|bs|h off len|h off bs|h st sp nd|h off len|h i j];
+    cbn [b_step]; try (destruct a); unfold write_at;
+    repeat match goal with
+           | |- context [if ?c then _ else _] => destruct c
+           | |- context [match ?c with Some _ => _ | None => _ end] => destruct c
+           | |- context [store_resource ?a ?b] => destruct (store_resource a b)
+           | |- context [let '(_, _) := ?c in _] => destruct c
+           end; cbn [snd]; try discriminate.
 Qed.
